@@ -801,6 +801,155 @@ def commit_rules(fb, R):
     except Unknown as ex:
         R.broken('B6: %s' % ex)
 
+
+# ------------------------------------------------------------------------------------------------ capacity (B3c, B7) and atomic adds (S8)
+
+def capacity_rules(fb, R):
+    """B3c: when Buffer::reserve_space() hands out &m_data[m_written] and advances m_written, `m_written + size <= m_capacity` has been
+    (re-)established after the LAST change of written/capacity: by the false outcome of that very test, or by grow(X) whose argument is shown
+    to cover the request (B3-growth-target-covers-request).  grow_internal() establishes nothing.
+    B7: every value stored into m_capacity is a multiple of the alignment (calculate_capacity result, a parameter whose misalignment throws,
+    another buffer's capacity, or 0).
+    S8: a builder method that validates its arguments by throwing does so before it writes anything (a rejected tag leaves the list unchanged)."""
+    methods = [f for f in fb.functions if f.cls == BUF and not f.is_lambda]
+
+    def is_fits_test(fn, cid, pd):
+        """condition `m_written + <param> > m_capacity` (any spelling): returns the index of the successor edge on which the request FITS"""
+        cn = fn.sn(cid)
+        if cn is None or cn.get('k') != 'binop' or cn['op'] not in ('>', '<', '>=', '<='):
+            return None
+
+        def is_sum(nid):
+            o = fn.sn(nid)
+            if o is None or o.get('k') != 'binop' or o['op'] != '+':
+                return False
+            fa, fb_ = this_field(fn, o['lhs']), this_field(fn, o['rhs'])
+            va, vb = fn.sn(o['lhs']), fn.sn(o['rhs'])
+            pa = va is not None and va.get('k') == 'var' and va.get('d') in pd
+            pb = vb is not None and vb.get('k') == 'var' and vb.get('d') in pd
+            return (fa == 'm_written' and pb) or (fb_ == 'm_written' and pa)
+        l_cap, r_cap = this_field(fn, cn['lhs'], 'm_capacity'), this_field(fn, cn['rhs'], 'm_capacity')
+        if is_sum(cn['lhs']) and r_cap:       # sum OP cap
+            return {'>': 1, '<=': 0}.get(cn['op'])
+        if l_cap and is_sum(cn['rhs']):       # cap OP sum
+            return {'<': 1, '>=': 0}.get(cn['op'])
+        return None
+
+    n = 0
+    for fn in fb.fns(BUF + '::reserve_space'):
+        pd = {p_['d'] for p_ in fn.params}
+        adv = [x for x in fn.all_nodes() if x.get('k') == 'assign' and x.get('op') in ('+=', '=') and this_field(fn, x['lhs'], 'm_written')]
+        if len(adv) != 1:
+            R.broken('B3c: reserve_space does not advance m_written exactly once')
+            continue
+        target = adv[0]['id']
+        grows = {g['id'] for g in fn.all_nodes() if g.get('k') == 'call' and g.get('q') == BUF + '::grow'}
+        modifiers = [g for g in fn.all_nodes() if g.get('k') == 'call' and g.get('q') in (BUF + '::grow_internal',)]
+
+        def edge_ok(b, idx, s_, fn=fn, pd=pd):
+            blk = fn.blocks[b]
+            if 'cond' in blk and len(blk['succs']) == 2:
+                fits = is_fits_test(fn, blk['cond'], pd)
+                if fits is not None and idx == fits:
+                    return False          # the request fits on this edge: established
+            return True
+
+        def barrier(e, grows=grows, fn=fn):
+            return (not isinstance(e, tuple)) and (e in grows or _is_throw_or_noreturn(fn, e))
+        n += 1
+        w = path_search(fn, fn.entry, lambda e: e == target, barrier, edge_ok, from_block_start=True)
+        R.check(w is None, 'B3-capacity-established-before-reservation', BUF + '::reserve_space#from-entry', fn.site,
+                'reserve_space() can reach `m_written += size` without having tested m_written + size <= m_capacity or grown to a covering capacity: %s'
+                % describe_path(fn, w))
+        for m in modifiers:
+            n += 1
+            w = path_search(fn, m['id'], lambda e: e == target, barrier, edge_ok)
+            R.check(w is None, 'B3-capacity-established-before-reservation', BUF + '::reserve_space#after-grow_internal', fn.loc(m['id']),
+                    'after grow_internal() (which only moves the uncommitted bytes to a fresh block of the SAME capacity) the request is not re-tested '
+                    'against m_capacity before `m_written += size`: a request larger than what the internal growth freed overflows the block: %s'
+                    % describe_path(fn, w))
+    if n == 0:
+        R.broken('B3c: Buffer::reserve_space not found')
+
+    # B7
+    n7 = 0
+    for fn in methods:
+        stores = []
+        for x in fn.all_nodes():
+            if x.get('k') == 'init' and x.get('name') == 'm_capacity':
+                stores.append((x['id'], x.get('init')))
+            elif x.get('k') == 'assign' and x.get('op') == '=' and this_field(fn, x['lhs'], 'm_capacity'):
+                stores.append((x['id'], x['rhs']))
+        pd = {p_['d']: p_ for p_ in fn.params}
+        for (sid, rhs) in stores:
+            if rhs is None:
+                continue
+            r = fn.sn(rhs)
+            n7 += 1
+            ok = False
+            why = fn.expr(rhs)
+            if r is None:
+                ok = False
+            elif fn.const_value(rhs) == 0:
+                ok = True
+            elif r.get('k') == 'call' and r.get('q') in (BUF + '::calculate_capacity', 'osmium::memory::padded_length'):
+                ok = True
+            elif r.get('k') == 'call' and r.get('q') == 'std::exchange':
+                ok = True     # move: the other buffer's capacity (B2 checks the member pairing)
+            elif r.get('k') == 'member' and r.get('name') == 'm_capacity':
+                ok = True     # another buffer's capacity
+            elif r.get('k') == 'var' and r.get('d') in pd:
+                d = r['d']
+                # (a) misalignment of the parameter throws   (b) the parameter was re-assigned from calculate_capacity before the store
+                for b in fn.blocks.values():
+                    if 'cond' not in b or len(b['succs']) != 2:
+                        continue
+                    cn = fn.sn(b['cond'])
+                    txt = fn.expr(b['cond'])
+                    uses = [fn.nodes[y] for y in fn.subtree(b['cond']) if fn.nodes[y].get('k') == 'var' and fn.nodes[y].get('d') == d]
+                    mods = [fn.nodes[y] for y in fn.subtree(b['cond']) if fn.nodes[y].get('k') == 'binop' and fn.nodes[y].get('op') == '%']
+                    if uses and mods and cn is not None and cn.get('k') == 'binop' and cn.get('op') in ('!=', '=='):
+                        tb = b['succs'][0] if cn['op'] == '!=' else b['succs'][1]
+                        if tb is not None and any(fn.nodes[e].get('k') == 'throw' for e in fn.blocks[tb]['elems']):
+                            ok = True
+                for a in fn.all_nodes():
+                    if a.get('k') == 'assign' and a.get('op') == '=' and (fn.sn(a['lhs']) or {}).get('k') == 'var' and fn.sn(a['lhs']).get('d') == d:
+                        ra = fn.sn(a['rhs'])
+                        if ra is not None and ra.get('k') == 'call' and ra.get('q') in (BUF + '::calculate_capacity', 'osmium::memory::padded_length') \
+                                and fn.elem_dominates(a['id'], sid):
+                            ok = True
+            R.check(ok, 'B7-capacity-is-aligned', '%s#m_capacity' % fn.q, fn.loc(sid),
+                    '%s stores `%s` into m_capacity without aligning it (calculate_capacity) or rejecting a misaligned value: a capacity that is not '
+                    'a multiple of align_bytes makes a later grow_internal() throw std::invalid_argument in the middle of a build' % (fn.q, why))
+    if n7 < 4:
+        R.broken('B7: only %d stores to Buffer::m_capacity found' % n7)
+
+    # S8
+    builder_classes = {r.q for r in fb.records if BLD in r.allbases} | {BLD}
+    WRITES = {BLD + '::append', BLD + '::append_with_zero', BLD + '::reserve_space', BLD + '::reserve_space_for', BLD + '::add_size', BLD + '::add_padding',
+              BLD + '::add_item'}
+    n8 = 0
+    for fn in fb.functions:
+        if fn.cls not in builder_classes or fn.is_lambda or fn.kind in ('ctor', 'dtor'):
+            continue
+        throws = {x['id'] for x in fn.all_nodes() if x.get('k') == 'throw' and 'length_error' in (x.get('tt') or '')}
+        writes = [x for x in fn.all_nodes() if x.get('k') == 'call' and x.get('q') in WRITES]
+        if not throws or not writes:
+            continue
+        n8 += 1
+        bad = None
+        for wr in writes:
+            w = path_search(fn, wr['id'], lambda e: e in throws, lambda e: False)
+            if w is not None:
+                bad = (wr, w)
+                break
+        R.check(bad is None, 'S8-validate-before-write', fn.q, fn.site if bad is None else fn.loc(bad[0]['id']),
+                '%s writes into the buffer (%s) and can afterwards still reject its arguments with std::length_error: the caller who catches the '
+                'exception and goes on is left with a half-written entry (odd number of strings in a tag list)'
+                % (fn.q, '' if bad is None else fn.expr(bad[0]['id'])[:60]))
+    if n8 < 3:
+        R.broken('S8: only %d validating builder methods found' % n8)
+
 # ------------------------------------------------------------------------------------------------ purge_removed
 
 def purge_rules(fb, R):
@@ -984,6 +1133,7 @@ def all_rules(fb, R):
     size_rules(fb, R)
     layout_rules(fb, R)
     commit_rules(fb, R)
+    capacity_rules(fb, R)
     purge_rules(fb, R)
     witness_rules(fb, R)
 
@@ -1021,6 +1171,9 @@ def run(ctx):
     R.expect('S7-user-area-matches-reader-layout', 5)
     R.expect('B5-readers-see-committed-data-only', 7)
     R.expect('B6-builder-offset-survives-growth', 2)
+    R.expect('B3-capacity-established-before-reservation', 2)
+    R.expect('B7-capacity-is-aligned', 3)
+    R.expect('S8-validate-before-write', 3)
     R.expect('S5-destructor-pads', 4)
     R.expect('S5-variable-member-padded', 2)
     R.expect('P1-purge-moves-items', 2)
